@@ -80,6 +80,15 @@ impl ExecutionErrorPayload {
             context: Some(reason.into()),
         }
     }
+
+    /// `ExitCode(0)`, possibly handed on by the native functions it passed through
+    pub fn is_exit_request(&self) -> bool {
+        match self {
+            ExecutionErrorPayload::ExitCode(0) => true,
+            ExecutionErrorPayload::TaskFailure { error, .. } => error.is_exit_request(),
+            _ => false,
+        }
+    }
 }
 
 pub(crate) struct Procedure<Aux> {
